@@ -1680,8 +1680,9 @@ FORMULAS = {
     'C06': ['ark_decompress', 'min_decompress', 'ark_elligator', 'min_elligator'],
     'C07': ['ark_elligator', 'min_elligator', 'min_add', 'min_hash_to_curve', 'ark_hash_to_curve', 'min_encode_to_curve', 'ark_encode_to_curve'],
     'C08': ['ark_eq', 'min_eq', 'ark_affine_eq', 'ark_is_identity', 'min_is_identity'],
-    'C10': ['opforms'],
-    'C11': ['opforms'],
+    'C10': ['fq_power_step', 'opforms'],
+    'C11': ['fq_from_bytes_checked', 'fr_from_bytes_checked', 'fp_from_bytes_checked', 'fq_from_le_bytes_mod_order', 'fr_from_le_bytes_mod_order',
+            'fp_from_le_bytes_mod_order', 'fq_to_bytes', 'fr_to_bytes', 'fp_to_bytes', 'opforms'],
     'C09': ['ark_sqrt_ratio_zeta', 'min_sqrt_ratio_zeta', 'min_pow_le_limbs_step', 'min_our_sqrt'],
     'C13': ['r1cs_compress', 'r1cs_decompress', 'r1cs_elligator', 'r1cs_is_eq', 'r1cs_isqrt', 'r1cs_is_nonnegative', 'r1cs_is_negative', 'r1cs_abs', 'r1cs_alloc_witness', 'lazy_element', 'lazy_encoding', 'opforms'],
     'C14': ['r1cs_compress', 'r1cs_decompress', 'r1cs_elligator', 'r1cs_isqrt', 'r1cs_is_nonnegative', 'r1cs_is_negative', 'r1cs_abs', 'r1cs_alloc_witness'],
